@@ -274,6 +274,21 @@ def fam_C05(seed, n):
             sc.add("h regen")
         sc.add("end")
         ids = k + 1
+        if ide_u != MAX and gr_u >= 1 and r.random() < 0.4:
+            # an ID that is long overdue (the client was away for more than SessionIDExpiry + grace) is replaced by the
+            # request that comes back, and a parallel request still presents the old ID inside ITS grace period
+            sc.add("wait", (ide_u + gr_u + r.choice([0, 1, 3])) * U)
+            req(sc, 0)
+            sc.add("end")
+            old = ids - 1
+            ids += 1
+            if gr_u >= 2 and r.random() < 0.5:
+                sc.add("wait", (gr_u - 1) * U)
+            req(sc, 1, spec="val:g%d" % old, create=0)
+            sc.add("h get k0")
+            sc.add("end")
+            if r.random() < 0.5:
+                sc.add("expired", "g%d" % old)
         if k >= 2 and gr_u >= 3 and r.random() < 0.4:
             # the hygiene predicate on the record of an ID replaced several changes ago, after that ID was presented (and
             # redirected) inside its grace period and the process restarted (no clean-up goroutine left to delete it)
